@@ -492,8 +492,11 @@ static void body_history_rounds(unsigned cfg, int d1, int d2, int guard_state, i
     VASSERT(C04/C09, spec_active(a, d2), "an approved round is applied although a later round of the same step is vetoed");
   } else if (g_sub_done) {
     VREACH("two approved rounds in one step");
-    VASSERT(C09, hist.count() == 3, "the history holds the requests of every approved round of the step");
-    if (hist.count() == 3) VASSERT(C09, hist[0].destination == (StateID) d1 && hist[1].destination == (StateID) d2 && hist[2].destination == (StateID) d3, "the history lists the applied requests in the order they were applied");
+    // (a request that asks for nothing new - e.g. the guard's extra request names what round one already established - changes nothing and is,
+    //  as everywhere in the library, not recorded; whether that is the case is decided by the replica check below, not re-derived here)
+    VASSERT(C09, hist.count() == 3 || hist.count() == 2, "the history holds the requests of every approved round of the step");
+    if (hist.count() >= 2) VASSERT(C09, hist[0].destination == (StateID) d1 && hist[1].destination == (StateID) d2, "the history lists the applied requests in the order they were applied");
+    if (hist.count() == 3) VASSERT(C09, hist[2].destination == (StateID) d3, "the history lists the applied requests in the order they were applied (second round)");
   }
   Snapshot after; snap(a, after);
   sync_monitor(r); g_guards_forbidden = true;
